@@ -368,6 +368,7 @@ pub fn run(ctx: &Ctx) -> Report {
             (ColumnType::MYSQL_TYPE_LONGLONG, ColumnFlags::empty(), V::Myc(mysql_common::value::Value::Int(-99887766554433))),
             (ColumnType::MYSQL_TYPE_LONG, ColumnFlags::empty(), V::Null),
         ];
+        const BEYOND: usize = 1 << 20;
         let mut tcases: Vec<(usize, bool, usize)> = Vec::new(); // (kind, binary, bytes of room left in the packet)
         for (ki, _) in kinds.iter().enumerate() {
             for bin in [false, true] {
@@ -378,6 +379,12 @@ pub fn run(ctx: &Ctx) -> Report {
                 } else {
                     tcases.push((ki, bin, 1 + (ki * 3 + bin as usize) % 9));
                 }
+                // and behind a blob that has already filled a packet by itself (room = 1000 means: the
+                // blob ends 1000 bytes BEYOND the limit): whatever was handed over early, the value
+                // and the NULL bits behind it belong to the same row
+                if bin || ki % 4 == 0 {
+                    tcases.push((ki, bin, BEYOND + if ctx.thorough { 0 } else { ki }));
+                }
             }
         }
         let r = par_cases(ctx, "C04", "typed-cells-at-the-boundary", tcases.len() as u64, |_rng, i, rep| {
@@ -385,7 +392,7 @@ pub fn run(ctx: &Ctx) -> Report {
             let (ct, fl, v) = kinds[ki].clone();
             // the first cell's encoding (4-byte prefix) ends `room` bytes in front of the limit
             let head = if bin { 2 } else { 0 };
-            let n = MAXP - head - 4 - room;
+            let n = if room >= BEYOND { MAXP + 1000 + (room - BEYOND) } else { MAXP - head - 4 - room };
             let cols = vec![
                 Column { table: "t".into(), column: "big".into(), coltype: ColumnType::MYSQL_TYPE_LONG_BLOB, colflags: ColumnFlags::empty() },
                 Column { table: "t".into(), column: "v".into(), coltype: ct, colflags: fl },
@@ -403,7 +410,7 @@ pub fn run(ctx: &Ctx) -> Report {
                 return;
             }
             let vn = format!("{:?}", v).chars().take(40).collect::<String>();
-            rep.counters.class(format!("typed cell at the boundary: {:?} {} room={}", ct, if bin { "bin" } else { "text" }, if room > 9 { ">9".to_string() } else { room.to_string() }));
+            rep.counters.class(format!("typed cell at the boundary: {:?} {} room={}", ct, if bin { "bin" } else { "text" }, if room >= BEYOND { "blob beyond the limit".to_string() } else if room > 9 { ">9".to_string() } else { room.to_string() }));
             let d = || J::obj().set("value", vn.clone()).set("column", format!("{:?}", ct)).set("mode", if bin { "binary" } else { "text" }).set("bytes_of_room_in_front_of_the_limit", room).set("blob_bytes", n).set("outcome", obs.outcome.describe());
             if i < 1 {
                 rep.sample(d());
